@@ -21,12 +21,15 @@ impl<C: tracing::Collect> Subscribe<C> for Rec {
 
 const LEVELS: [&str; 6] = ["off", "error", "warn", "info", "debug", "trace"];
 
-enum V { U(u64), I(i64), B(bool), F(f64), S(String) }
+/// `D`: a value whose Debug output is the given text (`d:<text>`)
+struct Raw(String);
+impl std::fmt::Debug for Raw { fn fmt(&self, f: &mut std::fmt::Formatter<'_>) -> std::fmt::Result { f.write_str(&self.0) } }
+enum V { U(u64), I(i64), B(bool), F(f64), S(String), D(tracing_core::field::DebugValue<Raw>) }
 fn parse_vals(t: &str) -> Vec<(String, V)> {
     if t == "-" { return Vec::new(); }
     t.split('+').filter_map(|f| {
         let (n, v) = f.split_once('=')?;
-        let v = if v == "true" { V::B(true) } else if v == "false" { V::B(false) }
+        let v = if let Some(t) = v.strip_prefix("d:") { V::D(tracing_core::field::debug(Raw(t.to_string()))) } else if v == "true" { V::B(true) } else if v == "false" { V::B(false) }
             else if let Ok(u) = v.parse::<u64>() { V::U(u) } else if let Ok(i) = v.parse::<i64>() { V::I(i) } else if v.contains('.') && v.parse::<f64>().is_ok() { V::F(v.parse::<f64>().unwrap()) } else { V::S(v.to_string()) };
         Some((n.to_string(), v))
     }).collect()
@@ -37,7 +40,7 @@ fn with_values<R>(m: &'static Metadata<'static>, vals: &[(String, V)], f: impl F
     let fs = m.fields();
     let pairs: Vec<(tracing_core::field::Field, &dyn Value)> = vals.iter().filter_map(|(n, v)| {
         let field = fs.field(n.as_str())?;
-        let v: &dyn Value = match v { V::U(u) => u, V::I(i) => i, V::B(b) => b, V::F(x) => x, V::S(s) => s };
+        let v: &dyn Value = match v { V::U(u) => u, V::I(i) => i, V::B(b) => b, V::F(x) => x, V::S(s) => s, V::D(d) => d };
         Some((field, v))
     }).collect();
     match pairs.len() {
@@ -67,11 +70,14 @@ fn run_case(toks: &[&str]) -> String {
     let sep = toks.iter().position(|t| *t == ";;").expect(";;");
     // the directive string, as a user would write it
     let mut dirs: Vec<String> = Vec::new();
-    let via_add = toks[0] == "A";
+    // `Q` / `B`: like `P` / `A` with regular expressions switched off (a matcher that is not a boolean or a number is a fixed
+    // text compared with the value's Debug output)
+    let via_add = toks[0] == "A" || toks[0] == "B";
+    let regex = toks[0] == "P" || toks[0] == "A";
     for d in toks[1..sep].chunks(5) { dirs.push(dir_string(d)); }
     // `P`: the whole comma-separated string at once; `A`: an empty filter, then `add_directive` for each directive
     let filter = if via_add {
-        let mut f = EnvFilter::builder().parse("").expect("empty filter");
+        let mut f = EnvFilter::builder().with_regex(regex).parse("").expect("empty filter");
         for d in &dirs {
             match d.parse::<tracing_subscriber::filter::Directive>() { Ok(d) => f = f.add_directive(d), Err(e) => return format!("PARSE-ERROR {}", e).replace(' ', "_") }
         }
@@ -79,8 +85,8 @@ fn run_case(toks: &[&str]) -> String {
     } else {
         // through the builder, or through `EnvFilter::new` (which carries a default directive, `error`, for strings that yield no
         // directive at all — never the case here: the constructors must agree)
-        match EnvFilter::builder().parse(dirs.join(",")) {
-            Ok(f) => if toks.len() % 2 == 0 { f } else { EnvFilter::new(dirs.join(",")) },
+        match EnvFilter::builder().with_regex(regex).parse(dirs.join(",")) {
+            Ok(f) => if toks.len() % 2 == 0 || !regex { f } else { EnvFilter::new(dirs.join(",")) },
             Err(e) => return format!("PARSE-ERROR {}", e).replace(' ', "_"),
         }
     };
